@@ -15,11 +15,26 @@ def generate():
     try:
         tree, _ = parse_module("_handler.py")
         cq = find_func(tree, "complete_queue", cls="Handler")
-        withs = [n for n in cq.body if isinstance(n, ast.With)]
+        withs = [n for n in ast.walk(cq) if isinstance(n, ast.With)]
         if len(withs) != 1 or ast.unparse(withs[0].items[0].context_expr) != "self._confirmation_lock":
             raise Unsupported("complete_queue: no single `with self._confirmation_lock` block")
         inside = _stmts(withs[0].body)
-        after = _stmts(cq.body[cq.body.index(withs[0]) + 1:])
+        # statements executed after the block: the rest of the body it stands in and of every enclosing body
+        # (`if not self._enqueue: return` before it and `if self._enqueue:` around it are the same function)
+        after = []
+
+        def rest_after(body, target):
+            for i, st in enumerate(body):
+                if st is target:
+                    return body[i + 1:]
+                for sub in ("body", "orelse"):
+                    inner = getattr(st, sub, None)
+                    if isinstance(inner, list) and any(target is x for x in ast.walk(st)):
+                        r = rest_after(inner, target)
+                        if r is not None:
+                            return r + body[i + 1:]
+            return None
+        after = _stmts(rest_after(cq.body, withs[0]) or [])
         body += "/-- statements of complete_queue inside / after the confirmation lock -/\n"
         body += "def completeInsideLock : List String := [%s]\n" % ", ".join(lean_str(x) for x in inside)
         body += "def completeAfterLock : List String := [%s]\n\n" % ", ".join(lean_str(x) for x in after)
@@ -27,9 +42,20 @@ def generate():
         loop = [n for n in qw.body if isinstance(n, ast.While)]
         if len(loop) != 1:
             raise Unsupported("_queued_writer: no single while loop")
+        # the loop variable (whatever it is called) is the name bound from `<queue>.get()`; it is rendered `message`
+        got = [n.targets[0].id for n in ast.walk(loop[0]) if isinstance(n, ast.Assign) and len(n.targets) == 1
+               and isinstance(n.targets[0], ast.Name) and isinstance(n.value, ast.Call)
+               and isinstance(n.value.func, ast.Attribute) and n.value.func.attr == "get" and not n.value.args]
+        if len(set(got)) != 1:
+            raise Unsupported("_queued_writer: the loop does not bind exactly one name from <queue>.get()")
+
+        class _Ren(ast.NodeTransformer):
+            def visit_Name(self, node):
+                return ast.copy_location(ast.Name(id="message", ctx=node.ctx), node) if node.id == got[0] else node
         tests = []
         for st in loop[0].body:
             if isinstance(st, ast.If):
+                st = _Ren().visit(ast.parse(ast.unparse(st)).body[0])
                 tests.append((ast.unparse(st.test), ast.unparse(st.body[0]) if len(st.body) == 1 else
                               "; ".join(_stmts(st.body))))
         body += "/-- the control-item tests of the worker loop, in order: (test, action) -/\n"
@@ -109,8 +135,10 @@ def generate():
                 ast.unparse(rets[0].value.elt) == "self._complete_task(%s)" % ast.unparse(rets[0].value.generators[0].target))
         httc = find_func(tree, "tasks_to_complete", cls="Handler")
         hw = [n for n in httc.body if isinstance(n, ast.With)]
-        under = (len(hw) == 1 and ast.unparse(hw[0].items[0].context_expr) == "lock" and
-                 [ast.unparse(x) for x in hw[0].body] == ["return self._sink.tasks_to_complete()"])
+        hw = [n for n in ast.walk(httc) if isinstance(n, ast.With)]
+        under = (len(hw) == 1 and [ast.unparse(x) for x in hw[0].body] == ["return self._sink.tasks_to_complete()"] and
+                 not any(isinstance(n, ast.Call) and ast.unparse(n.func) == "self._sink.tasks_to_complete" and
+                         not any(n is x for x in ast.walk(hw[0])) for n in ast.walk(httc)))
         body += "/-- `AsyncSink.tasks_to_complete` snapshots `self._tasks`; `Handler.tasks_to_complete` calls it under the lock -/\n"
         body += "def asyncSnapshotUnderLock : Bool := %s\n" % ("true" if snap and under else "false")
         ct = find_func(stree, "_complete_task", cls="AsyncSink")
